@@ -973,10 +973,10 @@ pub struct RunPlan {
 
 pub fn msg_json(m: &MsgPlan) -> Value {
     json!({"size": m.size, "framing": format!("{:?}", m.framing), "h2_cl": m.h2_cl, "h2_pad": m.h2_pad, "sep_end": m.h2_sep_end,
-           "wchunk": m.wchunk, "pause_every": m.wpause_every, "pause_us": m.wpause_us, "abort_at": m.abort_at})
+           "wchunk": m.wchunk, "pause_every": m.wpause_every, "pause_us": m.wpause_us, "abort_at": m.abort_at.map(|a| a as i64).unwrap_or(-1)})
 }
 pub fn read_json(r: &ReadPlan) -> Value {
-    json!({"rchunk": r.rchunk, "rdelay_us": r.rdelay_us, "rcvbuf": r.rcvbuf, "h2_window": r.h2_window, "h2_grant": r.h2_grant, "grant_delay_us": r.h2_grant_delay_us})
+    json!({"rchunk": r.rchunk, "rdelay_us": r.rdelay_us, "rcvbuf": r.rcvbuf.map(|a| a as i64).unwrap_or(-1), "h2_window": r.h2_window, "h2_grant": r.h2_grant, "grant_delay_us": r.h2_grant_delay_us})
 }
 
 /// plans of the runs in flight, looked up by the backends from the request path
